@@ -144,7 +144,11 @@ def dfLoop : Nat → Bytes → Nat → Nat → R Bytes
       else if c.toNat = 34 then
         match buf[src + 1]? with
         | none => .oob
-        | some e => if e.toNat ≠ 0 then .fail 3 else .ok buf          -- `if (*src != '\0') return -1;`
+        | some e =>
+          if e.toNat ≠ 0 then .fail 3                                 -- `if (*src != '\0') return -1;`
+          else match wr buf dst 0 with                                -- `*dst = '\0';` (since fix 3c63401)
+            | none => .oob
+            | some b => .ok b
       else if c.toNat = 92 then
         match buf[src + 1]? with
         | none => .oob
@@ -159,7 +163,8 @@ def dfLoop : Nat → Bytes → Nat → Nat → R Bytes
         | some b => dfLoop fuel b (src + 1) (dst + 1)
 
 /-- `decode_filename(buffer)` up to (not including) `canonicalize_name`; `buf = s ++ [0]`.
-Note that the code does **not** terminate the rewritten name: the tail of the original stays. -/
+(1.2.0 did not terminate the rewritten name, so the tail of the original line stayed behind it;
+repaired in /repo by 3c63401, which this model follows.) -/
 def decodeFilename (buf : Bytes) : R Bytes :=
   match buf[0]? with
   | none => .oob
